@@ -234,9 +234,6 @@ func (s *Stream) ExecuteFlow(
 		return nil
 	}
 
-	s.apiStreams = stream.NewStream().
-		WithProcessorExecutionTimeMeasurement(s.metricsData.procMetricsData.measureProcExecutionTime)
-
 	var err error
 	if apiStream.GetType().IsRequestType() {
 		s.metricsData.incrementRequestsThroughFlows()
